@@ -539,5 +539,15 @@ func extractC04() *lean {
 		})
 	}
 	l.def("middlewareOrder", "List String", leanStrList(order), order)
+	// ---------------- middleware.go Handler: what echo gets for every request (a fresh closure over `next`, nothing shared)
+	hb, hrecv := "MISSING", "MISSING"
+	if fd := funcDecl(mw, "Handler"); fd != nil {
+		hb = strings.Join(strings.Fields(c04Src(fd.Body)), " ")
+		if fd.Recv != nil && len(fd.Recv.List) > 0 {
+			hrecv = c04Src(fd.Recv.List[0].Type)
+		}
+	}
+	l.def("middlewareHandlerBody", "String", fmt.Sprintf("%q", hb), hb)
+	l.def("middlewareHandlerReceiver", "String", fmt.Sprintf("%q", hrecv), hrecv)
 	return l
 }
